@@ -31,6 +31,7 @@ func init() {
 			{Name: "chains", Run: runChains},
 			{Name: "forheaders", Run: runForHeaders},
 			{Name: "statements", Run: runStatements},
+			{Name: "nesting", Run: runNesting},
 			{Name: "asi", Run: runASI},
 			{Name: "restricted", Run: runRestricted},
 			{Name: "regexdiv", Run: runRegexDiv},
